@@ -34,7 +34,7 @@ MANIFEST_INFO = {
     "engine": "D",
     "design_ref": "DESIGN.md section 5, C14",
     "technique": "stateless deviation-bounded DFS over stage behaviours of generated Deferred-returning TestCases run by the real AsynchronousDeferredRunTest on the real SelectReactor under a virtual clock; timeout placement, tie order and interrupt instant enumerated; async lifecycle timeline model",
-    "level_text": "Every program whose setUp/test/tearDown/0-2 cleanups each pick one of 21 behaviours (return, register a further cleanup (also from inside a cleanup), raise error/failure/skip/SystemExit, Deferred failing with SystemExit, Deferred firing a few zero-delay reactor iterations after its due time, Deferred already fired / firing or failing after 1 or 2 time units / never firing, leaving a delayed call, logging an error with or without flushing it, dropping a failed Deferred) with at most 3 (quick) / 4 (thorough) deviating stages, for 6 timeouts placed before/at/after the stage boundaries, with <=1 interrupt at any reactor instant, both runner variants and all four logging-option combinations, is executed; bracket, success-iff-clean, error on timeout/interrupt (+stop), stage sequencing by virtual timestamps, reactor cleanliness and log-observer restoration are checked on every execution.",
+    "level_text": "Every program whose setUp/test/tearDown/0-2 cleanups each pick one of 21 behaviours (return, register a further cleanup (also from inside a cleanup), raise error/failure/skip/SystemExit, Deferred failing with SystemExit, Deferred firing a few zero-delay reactor iterations after its due time, Deferred already fired / firing or failing after 1 or 2 time units / never firing, leaving a delayed call, logging an error with or without flushing it, dropping a failed Deferred) with at most 3 (quick) / 4 (thorough, default logging options; 3 for the other three combinations) deviating stages, for 6 timeouts placed before/at/after the stage boundaries, with <=1 interrupt at any reactor instant, both runner variants and all four logging-option combinations, is executed; bracket, success-iff-clean, error on timeout/interrupt (+stop), stage sequencing by virtual timestamps, reactor cleanliness and log-observer restoration are checked on every execution.",
     "level_note": "Virtual clock on the real SelectReactor; garbage collection of a dropped failed Deferred relies on CPython reference counting (deterministic); when the chain completes at exactly the timeout instant the verdict must follow the tie order chosen for that execution (timeout first: error; Deferred first and nothing left to wait for: success).",
 }
 
@@ -471,12 +471,20 @@ def configs(tier):
     return out
 
 
+def bound_for(tier, config):
+    """Deviating stages / ties / interrupts per execution: 3; in the thorough tier 4 for the default
+    logging options (suppression and capture on), which is where the runner is normally used."""
+    if tier == "quick":
+        return 3
+    return 4 if (config[1] and config[2] and config[4] != "dup") else 3
+
+
 def shards(tier):
     from vt.explore.chooser import first_level_prefixes
 
     out = []
-    bound = 3 if tier == "quick" else 4
     for config in configs(tier):
+        bound = bound_for(tier, config)
         out.append((config, None))
         for p in first_level_prefixes(lambda ch: execute(config, ch), bound):
             out.append((config, tuple(p)))
@@ -487,7 +495,7 @@ def shards(tier):
 def run_shard(shard, tier, seed):
     config, prefix = shard
     res = ShardResult()
-    bound = 3 if tier == "quick" else 4
+    bound = bound_for(tier, config)
 
     def check(ch, o):
         obs, problems, ctx = o.v
@@ -503,7 +511,7 @@ def run_shard(shard, tier, seed):
     res.states += stats.choice_points + (1 if prefix is None else 0)
     res.transitions += stats.edges + (0 if prefix is None else 1)
     res.traces_validated += stats.executions
-    res.notes["deviation_bound"] = bound
+    res.notes["deviation_bound_max"] = bound
     vreactor.discard_reactor()
     return res
 
@@ -522,7 +530,7 @@ def meta(tier):
     return {
         "technique": MANIFEST_INFO["technique"],
         "rule": "per configuration (runner variant, suppress/store options, timeout, cleanups, foreign observer): every choice sequence with <= bound deviations, a deviation being a stage that does not simply return, a tie resolved the non-default way, or a delivered interrupt; non-trivial = >= 1 deviation; distinct = distinct (config, decisions, outcome, interrupt instant, stage sequence)",
-        "bounds": {"deviations": 3 if tier == "quick" else 4, "timeouts": list(TIMEOUTS), "behaviours": list(KINDS), "cleanups": [0, 1, 2], "interrupts": 1},
+        "bounds": {"deviations": "3" if tier == "quick" else "4 with the default logging options, 3 otherwise", "timeouts": list(TIMEOUTS), "behaviours": list(KINDS), "cleanups": [0, 1, 2], "interrupts": 1},
         "assumptions": ["virtual clock on the real SelectReactor", "a chain completing exactly at the timeout instant is judged by the tie order recorded for that execution (both orders are explored)", "on timeout or interrupt the remaining stages are not required to run"],
     }
 
